@@ -83,6 +83,12 @@ def explicit_raise_in_prophyc(exc):
     if not tb:
         return False, "?"
     last = tb[-1]
+    # the innermost frame of the system under test (the harness's own trace function may be on top of the stack when
+    # the recursion limit is hit)
+    for fr in reversed(tb):
+        if "/verif/" not in fr.filename:
+            last = fr
+            break
     where = "%s:%s" % (last.filename.rsplit("/", 1)[-1], last.name)
     in_prophyc = "/prophyc/" in last.filename
     return in_prophyc and (last.line or "").strip().startswith("raise"), where
